@@ -361,6 +361,34 @@ pub fn call(f: &str, a: &Value) -> Out {
         }
         "d_is_zero" => Out::Ok(json!(Decimal256(limbs(&a[0])).is_zero())),
         "d_to_string" => Out::Ok(json!(Decimal256(limbs(&a[0])).to_string())),
+        "d_fmt" => {
+            // the same Display, driven through format specifications (precision / width / fill / alignment)
+            let d = Decimal256(limbs(&a[0]));
+            let prec = a[1].as_u64().map(|x| x as usize);
+            let width = a[2].as_u64().map(|x| x as usize);
+            let left = a[3].as_bool().unwrap_or(false);
+            let s = match (prec, width, left) {
+                (Some(p), Some(w), false) => format!("{:>w$.p$}", d, w = w, p = p),
+                (Some(p), Some(w), true) => format!("{:<w$.p$}", d, w = w, p = p),
+                (Some(p), None, _) => format!("{:.p$}", d, p = p),
+                (None, Some(w), false) => format!("{:>w$}", d, w = w),
+                (None, Some(w), true) => format!("{:<w$}", d, w = w),
+                (None, None, _) => format!("{}", d),
+            };
+            Out::Ok(json!(s))
+        }
+        "u_fmt" => {
+            let u = Uint256(limbs(&a[0]));
+            let prec = a[1].as_u64().map(|x| x as usize);
+            let width = a[2].as_u64().map(|x| x as usize);
+            let s = match (prec, width) {
+                (Some(p), Some(w)) => format!("{:>w$.p$}", u, w = w, p = p),
+                (Some(p), None) => format!("{:.p$}", u, p = p),
+                (None, Some(w)) => format!("{:>w$}", u, w = w),
+                (None, None) => format!("{}", u),
+            };
+            Out::Ok(json!(s))
+        }
         "d_from_str" => match Decimal256::from_str(a[0].as_str().unwrap()) {
             Ok(v) => Out::Ok(out_limbs(v.0)),
             Err(e) => Out::Err(e.to_string()),
